@@ -2,11 +2,11 @@
 from engine import core
 
 INFO = {
-    "outside": 'arbitrary strings longer than N characters; the IPv6 format->parse round trip (lrtr_ipv6_addr_to_str output is only checked for buffer bounds: its data-dependent layout gave no verdict within 12 GB); compressed forms with mixed digit counts per group',
+    "outside": 'arbitrary strings longer than N characters; formatter round trip for non-zero groups of 3-4 hex digits or mixed digit counts (decided per layout class: zero-group mask x 1-2 digits); parser: compressed forms with mixed digit counts per group',
     "assumptions": ['libc models for the four format strings'],
 }
 MANIFEST = {
-    "text": 'Real ipv4.c/ipv6.c/ip.c with exact models of the four libc format strings: all 2^32 IPv4 addresses round-trip and never write beyond the length told; the IPv6 parser is a function of the text only (two runs from different uninitialised stacks agree) for every string of <=10/16 characters; every such string the reference inet_pton grammar accepts is accepted with the same bits; to_str refuses short buffers; every compressed text form (the double colon at every position and length, incl. forms no formatter emits) with symbolic digits parses to the reference result.',
+    "text": 'Real ipv4.c/ipv6.c/ip.c with exact models of the four libc format strings: all 2^32 IPv4 addresses round-trip and never write beyond the length told; the IPv6 parser is a function of the text only (two runs from different uninitialised stacks agree) for every string of <=10 characters; every such string the reference inet_pton grammar accepts is accepted with the same bits; to_str refuses short buffers; every compressed text form (the double colon at every position and length, incl. forms no formatter emits) with symbolic digits parses to the reference result; the IPv6 formatter: for every layout class (which groups are zero: 20 masks quick / all 256 thorough; 1 hex digit per other group, 2 for four masks) the text produced for ANY address of the class parses back to the same address with the real parser and with the reference grammar.',
     "note": "inet_pton itself cannot be encoded (glibc, no source): agreement is with a reference recogniser that follows glibc's algorithm; it and the printf/sscanf models are differential-tested against glibc by scripts/c19_selftest (oracle validation, not the deciding step).",
     "technique": 'CBMC on real ipv6.c/ipv4.c with libc format models and a reference inet_pton grammar',
 }
@@ -48,6 +48,52 @@ def precheck():
     return r.returncode == 0, r.stdout[-500:]
 
 
+def hexplan(zmask, d):
+    """digits of the successive "%x" conversions of the canonical text form (first longest run of >= 2 zero groups
+    compressed; zero groups outside it print "0") for an address whose zero groups are given by zmask"""
+    zero = [(zmask >> (7 - i)) & 1 for i in range(8)]
+    best, cur = (-1, 0), None
+    for i in range(8):
+        if zero[i]:
+            if cur is None:
+                cur = [i, 0]
+            cur[1] += 1
+            if cur[1] > best[1]:
+                best = (cur[0], cur[1])
+        else:
+            cur = None
+    if best[1] < 2:
+        best = (-1, 0)
+    plan, i = [], 0
+    while i < 8:
+        if i == best[0]:
+            i += best[1]
+            continue
+        plan.append(1 if zero[i] else d)
+        i += 1
+    return plan or [1]
+
+
+def fjob(zmask, d, k, timeout=1500):
+    strn = 16 if d == 1 else (24 if d == 2 else 40)
+    j = ijob("v6_format_z%02x_d%d_k%d" % (zmask, d, k), "harness_v6_format", strn, timeout=timeout,
+             extra=["ZMASK=0x%02x" % zmask, "FDIG=%d" % d, "KBIT=%d" % k, "HEXPLAN=" + ",".join(str(x) for x in hexplan(zmask, d))])
+    j.harness = "ipfmt.c"
+    j.unwindset.update({"ipstr_sprintf.0": 7, "ipstr_sprintf.1": 5})
+    for i in range(8):
+        j.unwindset["harness_v6_format.%d" % i] = 66
+    j.desc = ("real lrtr_ipv6_addr_to_str then real lrtr_ipv6_str_to_addr + reference inet_pton grammar: text parses back to the same "
+              "address, for ALL addresses of one layout class: zero groups = mask 0x%02x (bit 0x80>>i = group i), every other group a "
+              "free value with exactly %d hex digit(s) and bit %d of its leading digit set" % (zmask, d, k))
+    j.bounds = {"zero_group_mask": "0x%02x" % zmask, "hex_digits_per_nonzero_group": d, "forced_bit_of_leading_digit": k}
+    j.stubs = IP_STUBS + ["sprintf(\"%x\") model takes the digit count of each conversion from the driver's plan for the canonical form and "
+                          "ASSUMES the value fits it (a formatter that chooses another layout makes the job vacuous = INCONCLUSIVE)"]
+    return j
+
+
+# layout classes of the formatter jobs: no zero group, all zero, single zeros (never compressed), runs at the start / middle /
+# end, two runs (equal: first wins; longer second), a compressed run followed by a lone trailing zero, embedded-IPv4 forms
+FMT_QUICK = [0x00, 0xff, 0x01, 0x80, 0x10, 0x03, 0xc0, 0x18, 0x66, 0x36, 0xc7, 0x61, 0x39, 0x8e, 0x7e, 0xfe, 0xfc, 0xfd, 0x7f, 0xa5]
 SHAPES_QUICK = [0x00, 0xff, 0x3c, 0xfe, 0x7f, 0x81]
 DG2 = set()  # filled after measurement
 
@@ -63,13 +109,23 @@ def jobs(tier):
     if tier == "quick":
         forms = [(0, 0), (0, 8)] + [(p, 1) for p in range(8)] + [(0, 2), (3, 2), (6, 2), (1, 6), (0, 7), (1, 7), (2, 3)]
     for (pos, ln) in forms:
-        # digits per group: 1 everywhere; 4 only where at most one group is written out (the other full-width forms run
+        # digits per group: 1 everywhere; 4 only for "::" and "::x" (the other full-width forms run
         # out of 12 GB: measured) -- thorough adds 2 digits per group for the forms in DG2
-        dgs = (1,) if tier == "quick" else ((1, 4) if ln >= 7 else ((1, 2) if (pos, ln) in DG2 else (1,)))
+        dgs = (1,) if tier == "quick" else ((1, 4) if (ln >= 7 and pos == 0) else ((1, 2) if (pos, ln) in DG2 else (1,)))
         for dg in dgs:
             J.append(ijob("v6_compressed_p%d_l%d_d%d" % (pos, ln, dg), "harness_v6_compressed", 16 if dg == 1 else 40,
                           extra=["DC_POS=%d" % pos, "DC_LEN=%d" % ln, "DC_DIGITS=%d" % dg], timeout=900))
-    # IPv6 format->parse round trip: NOT part of either tier (no verdict within 12 GB / 10 min per shape: the
+    # the formatter: text -> address round trip per layout class (harness/ipfmt.c)
+    masks = FMT_QUICK if tier == "quick" else list(range(256))
+    for z in masks:
+        J.append(fjob(z, 1, 0))
+    for z in ([0x61, 0x18] if tier == "quick" else FMT_QUICK):
+        for k in (1, 2, 3):
+            J.append(fjob(z, 1, k))
+    if tier == "thorough":
+        for z in (0x61, 0x18, 0xfe, 0xc0):
+            J.append(fjob(z, 2, 0, timeout=3000))
+    # the monolithic IPv6 format->parse round trip with symbolic layout: NOT part of either tier (no verdict within 12 GB / 10 min per shape: the
     # formatter's output positions depend on the data); kept for experiments with VERIF_C19_ROUNDTRIP=1
     import os
     shapes = [] if not os.environ.get("VERIF_C19_ROUNDTRIP") else sorted(set(SHAPES_QUICK + [0xc0, 0x03, 0x18, 0xf0, 0x0f, 0xaa, 0x55, 0xfc, 0xf8, 0x3f, 0x7e, 0xfd, 0xe7, 0xbd]))
